@@ -33,7 +33,7 @@ CODES = {
                          {"UEB_START_MODE": "Grade1", "UEB_UseSpacesAroundAllOperators": "true"}, DECIMAL_COMMA], "alphabet_only": []},
     "CMU": {"kind": "cell", "langs": ["es"], "digits": UPPER, "marks": {",": "⠂", ".": "⠂"}, "dropped": True,
             "variants": [{}, DECIMAL_POINT], "alphabet_only": []},
-    "Vietnam": {"kind": "cell", "langs": ["vi"], "digits": UPPER, "marks": {",": "⠂"}, "dropped": True,
+    "Vietnam": {"kind": "cell", "langs": ["vi", "en"], "digits": UPPER, "marks": {",": "⠂"}, "dropped": True,
                 "variants": [{"Vietnam_UseDropNumbers": "false"}, {"Vietnam_UseDropNumbers": "true"}], "alphabet_only": []},
     "Swedish": {"kind": "cell", "langs": ["en", "sv"], "digits": UPPER, "marks": {",": "⠂", ".": "⠄"}, "dropped": True,
                 "variants": [{}, {"UseSpacesAroundAllOperators": "true"}], "alphabet_only": []},
